@@ -157,8 +157,9 @@ Definition check_case (c : case) : bool :=
       Bool.eqb (verify_rrsig_pm powmod_fast (tbl_H t) (tbl_ECP ecp) (fun _ pub dg sg => negb (is_nil dg) && tbl_EV ev pub sg)
                                (fun pub msg sg => existsb (fun o => list_eqb msg (o_msg o)) t && tbl_EV ev pub sg)
                                orc_LIBV signer keys answer ns) got
-  | CaseSuffix a b got _ _ => compare_suffix a b =? got
-  | CaseSynth owner target dnames got _ _ => Bool.eqb (is_synthesized_cname owner target dnames) got
+  | CaseSuffix a b got _ _ => (compare_suffix a b =? got) && (compare_suffix_spec a b =? got)
+  | CaseSynth owner target dnames got _ _ =>
+      Bool.eqb (is_synthesized_cname owner target dnames) got && Bool.eqb (is_synthesized_cname_spec owner target dnames) got
   end.
 
 (* ------------------------------------------------------------------ spec *)
